@@ -12,6 +12,7 @@ import time
 import traceback
 
 from . import REPO, symx
+from . import stubs as _stubs  # noqa: F401  (registers the per-path hooks: memo caches of the library are emptied before every path)
 
 HERE = os.path.dirname(os.path.dirname(os.path.abspath(__file__)))
 EVIDENCE_DIR = os.environ.get('VERIF_EVIDENCE_DIR') or os.path.join(HERE, 'evidence')
